@@ -191,6 +191,25 @@ CHECKS = {
         'note': 'Trusted: annotations for set-typedness; spec/order_triage.py (9 reasoned entries); dict insertion order.',
         'design_ref': 'DESIGN.md section 3, C18',
     },
+    'C16': {
+        'level': 'other',
+        'technique': 'symbolic stack-effect analysis of the replay loop (linear forms over symbolic lengths, per-call effects derived from the tracker source) against the Metamath pop/push discipline read from the benchmark databases; operand-slot, reuse-index and declaration/load agreement rules (ast)',
+        'text': 'One structural clause, a necessary condition of "the emitted proof is accepted" and "the published claim is the image '
+                'of the target": translate.exec_proof keeps the tracked stack in step with the Metamath stack. For each of the 21 paths '
+                'of the replay loop (Z mark, reuse, app/imp constructors, constructor axioms, floating hypotheses, axioms with and '
+                'without antecedents and metavariables, prop-1, prop-2, mp) the net effect on the tracked stack - summed from the '
+                'effects of the StatefulInterpreter calls, loops counted as body effect times a symbolic length - equals 1 minus the '
+                'number of mandatory hypotheses Metamath pops (read from generation/mm-benchmarks/*.mm for the fixed prelude labels); '
+                'operands are read from the slot where Metamath pushed them (get_delta index -(n+1)+i, prop-1/prop-2 keys by unifying '
+                'the prelude statement with the axiom schema, implication first for mp, left operand deeper for app/imp); reuse '
+                'numbers index saved entries as k - len(labels) - 1; the axiom pattern loaded is the one main() declares; the stack top '
+                'is asserted to prove the target before publication; Interpreter.pattern nets +1 on every arm. NOT decided: the '
+                'converter\'s images of terms, notations and axioms, nor acceptance of any database (run-time data); proofs using other '
+                'proof rules are outside the stated fragment (reported as advisory).',
+        'note': 'Trusted: tracker effects (decided under C04), prelude statements in the benchmark databases, assumption that the '
+                'mandatory floats of a non-prelude label are get_metavars_in_order(label) and its essentials are the antecedents.',
+        'design_ref': 'DESIGN.md section 3, C16',
+    },
     'C17': {
         'level': 'other',
         'technique': 'visitor/grammar table agreement (ast of Encoder and transformer vs the Lark grammar string), closure / scan-before-emit / single-ordered-pass rules over the slicer (syntax-level path enumeration), dispatch-ends-raising rule',
